@@ -249,6 +249,25 @@ def history_case(rng, name, mk, meta, ids):
     return None
 
 
+def class_state():
+    """hash of every class-level mutable attribute and every module-level plain global of the package: state that
+    all estimator objects of the process share"""
+    import inspect
+    import sys
+    out = {}
+    for mname, m in sorted(sys.modules.items()):
+        if not (mname == 'pykoop' or mname.startswith('pykoop.')) or m is None:
+            continue
+        for name, obj in sorted(vars(m).items()):
+            if inspect.isclass(obj) and getattr(obj, '__module__', None) == mname:
+                for k, v in sorted(vars(obj).items()):
+                    if isinstance(v, (dict, list, set)) and not k.startswith('__'):      # (dunders: caches of the Python runtime)
+                        out[f'{mname}.{obj.__name__}.{k}'] = joblib.hash(v)
+            elif isinstance(obj, (dict, list, set, bool, int, float, str)) and not name.startswith('__'):
+                out[f'{mname}.{name}'] = joblib.hash(obj)
+    return out
+
+
 def interference_case(rng, name_a, mk_a, name_b, mk_b):
     """operations on ANOTHER estimator object must not influence this one: A is fitted without episode
     feature on single-column data, B (another object, possibly another class) is then fitted with an episode
@@ -428,6 +447,7 @@ def run(res, tier):
     rng = np.random.default_rng(common.seed())
     proved = driver.proof_step(res, PID)
     ids = known.report_known(res, PID)
+    shared_before = class_state()
     reps = 2 if tier == 'quick' else 12
     bad = []; kn = {}; dist = {}; ev = 0
     Z = zoo()
@@ -497,6 +517,15 @@ def run(res, tier):
         kn['F6'] = 1
     elif r:
         bad.append(r)
+    # after all those fits of all those classes: the state shared by every estimator object of the process (class-level
+    # mutable attributes, module globals) must be what it was before
+    shared_after = class_state()
+    changed = sorted(k for k in set(shared_before) | set(shared_after) if shared_before.get(k) != shared_after.get(k))
+    ev += 1
+    if changed:
+        bad.append(dict(what='fitting and using estimators changed state shared by all estimator objects of the process '
+                             '(class-level mutable attribute / module global): later fits depend on this history',
+                        changed=changed[:10]))
     res.coverage.update(
         evaluations=ev, distinct_nontrivial=ev,
         rule=('M4: the fit-like and read-only methods of every class are re-analysed from the source on this run '
